@@ -63,7 +63,8 @@ class Check:
         ``facts``: number of resolved facts that went into the decision
         (0 marks a trivial obligation).  ``undecided``: a failure means "the rule does not
         understand this spelling" (exit 2), not "the code contradicts the rule" (exit 1)."""
-        self.obs.append(Obligation(rule, construct, bool(ok), loc, message, facts, undecided))
+        # facts < 0: the shared rule modules' way of saying "undecided"
+        self.obs.append(Obligation(rule, construct, bool(ok), loc, message, abs(facts), undecided or facts < 0))
         return bool(ok)
 
     def cannot_decide(self, rule: str, construct: str, loc: str, message: str) -> None:
